@@ -279,7 +279,20 @@ class _CacgmmContinue:
         ref = g.pick_model(['cacgmm'])
         if ref is None:
             return None
-        return {'model': ref, 'iterations': int(g.choice([1, 2, 3]))}
+        a = {'model': ref, 'iterations': int(g.choice([1, 2, 3]))}
+        if g.coin(0.5):
+            # continue under other options than the model was produced with
+            ov = {}
+            if g.coin(0.6):
+                ov['eigenvalue_floor'] = g.choice([1e-10, 1e-6, 1e-2, 0.1])
+            if g.coin(0.3):
+                ov['covariance_norm'] = g.choice(['eigenvalue', 'trace', False])
+            if g.coin(0.3):
+                ov['affiliation_eps'] = g.choice([0.0, 1e-10, 1e-3])
+            if g.coin(0.2):
+                ov['hermitize'] = g.coin()
+            a['override'] = ov
+        return a
 
     @staticmethod
     def run(ctx, a):
@@ -292,8 +305,9 @@ class _CacgmmContinue:
         if 'aligner' in src:
             extra['inline_permutation_aligner'] = ctx.aligner(src['aligner'])
         sal = ctx.arr(src['saliency']) if 'saliency' in src else None
+        opts = dict(src['opts'], **a.get('override', {}))
         return models.call_fit('cacgmm', trainer, ctx.arr(src['obs']), None,
-                               m.value, a['iterations'], src['opts'],
+                               m.value, a['iterations'], opts,
                                saliency=sal, extra=extra)
 
 
@@ -1026,7 +1040,8 @@ class _Aligner:
         else:
             al = gen_aligner(g, K, F)
         a = {'aligner': al,
-             'mask': g.arr(g.choice(['affiliation', 'uniform']), [K, F, T]),
+             'mask': g.arr(g.choice(['affiliation', 'uniform', 'onehot',
+                                     'uniform_zeros']), [K, F, T]),
              'method': g.choice(['calculate_mapping', 'call', 'apply_mapping'])}
         if al['kind'] == 'oracle':
             a['ref'] = g.arr('affiliation', [K, F, T])
@@ -1055,8 +1070,9 @@ class _PaFunc:
                                    'mapping_from_score_int', 'score_cos',
                                    'score_multiply', 'score_euclidean',
                                    'calc_score', 'vector_norm', 'interleave']),
-                'mask': g.arr('affiliation', [K, F, T]),
-                'ref': g.arr('affiliation', [K, F, T]),
+                'mask': g.arr(g.choice(['affiliation', 'onehot', 'uniform_zeros']),
+                              [K, F, T]),
+                'ref': g.arr(g.choice(['affiliation', 'onehot']), [K, F, T]),
                 'mapping': g.arr('permfield', [K, F], reuse=False),
                 'score': g.arr('normal', [F, K, K]),
                 'iscore': g.arr('integers', [K, K], low=0, high=2),
